@@ -132,7 +132,7 @@ func init() {
 		PID: "C07", PLevel: "exploration",
 		RuleText: "scenario = both engines, 1 source (3 of 4 cases; exact window oracle) or up to 3 sources (safety clauses), 1-3 destinations with scripted rejection rates and explicit rejection bursts, processors that error/filter, DLQ window W in {0,1,2,3,5,8} and threshold T < W, failing DLQ writes in 1 of 6 scenarios. Judged: every DLQ record (at most once per run, source order, carries the original record, a scripted error of that record and a component that rejects it), every failed DLQ write (never followed by an ack), per source session the tolerate-vs-stop decision against a reference window written from the property's wording, and for single-source scenarios the same scripts are run on the OTHER engine and the acked / dead-lettered sets must be identical. Non-trivial: a DLQ record or an intolerable rejection was judged; distinct = distinct (engine, topology, window config, outcome kinds).",
 		Assume:   []string{"reference window = 20 lines written from the C07 wording (internal/pipe/oracle_c07.go RefWindow)", "splits are excluded from the window scenarios (the wording counts outcomes of source records)", "for the default engine with several sources the interleaving of outcomes at the shared window is not observable at the boundary: safety clauses only"},
-		Quick:    240, Thorough: 8000,
+		Quick:    240, Thorough: 2400,
 		PointBias: []string{"funnel.worker.ack", "funnel.worker.nack", "funnel.multiack.ack", "funnel.multiack.nack", "connector.source.ack", "stream.sourceacker.ack", "stream.sourceacker.nack", "stream.fanout.ack"},
 		Anchors:   []string{"pkg/lifecycle/stream/dlq.go", "pkg/lifecycle/dlq.go", "pkg/lifecycle-poc/funnel/dlq.go", "pkg/lifecycle/stream/source_acker.go"},
 		Gen:       gen, Judge: judge,
